@@ -249,6 +249,7 @@ Hypothesis Sft : Sfield S.
 Hypothesis Seqb : seqb_spec S.
 Hypothesis Ord : ordered S.
 Hypothesis Habs2 : forall v : S, sabs v * sabs v = v * v.
+Hypothesis Hadj : forall v : S, sadj v = v.   (* real value types: math::adjoint = id (SPAI-0 accumulates adjoint(a_ii)) *)
 Let Srt : Sring S := F_R Sft.
 Add Ring SRingSm6b : Srt.
 Local Notation ip := (@ip S).
@@ -269,7 +270,7 @@ Proof.
   induction ls as [|l tl IH]; intro Hd; [exact I|].
   destruct (descs_ok_A kd l tl Hd) as [Hl Htl]. specialize (IH Htl).
   unfold std_levels in *. cbn [map hier_pre_dec]. rewrite (inst_lA (mk_relax_std kd) mk_solve_exact).
-  split; [apply (inst_dec2 Sft Seqb Ord Habs2 kd l Hl)|]. split; [|exact IH].
+  split; [apply (inst_dec2 Sft Seqb Ord Habs2 Hadj kd l Hl)|]. split; [|exact IH].
   intros sv Esv w Lw. destruct l as [A P R|A|A]; cbn in Esv; try discriminate.
   inversion Esv; subst. cbn [ld_A] in *. destruct Hl as (WA & SA & Hpsd & _).
   apply exact_solve_nonneg; [apply SA|exact WA|exact Hpsd|exact Lw].
@@ -320,10 +321,10 @@ Proof.
     destruct (descs_ok_A kd l tl Hd) as [Hl _]. cbn [top_strict_desc] in Hs.
     rewrite (inst_lA (mk_relax_std kd) mk_solve_exact). split.
     - destruct (inst_sweeps_ok (mk_relax_std kd) mk_solve_exact (mk_relax_std_ok kd) l) as [Ok1 _].
-      destruct (inst_dec2 Sft Seqb Ord Habs2 kd l Hl) as [D1 _].
+      destruct (inst_dec2 Sft Seqb Ord Habs2 Hadj kd l Hl) as [D1 _].
       apply (itpow_sdec Srt (O1 Ord) (O2 Sft Ord) (O3 Sft Ord) _ _ k _ (sm_len _ _ Ok1) D1).
       destruct l as [A P R|A|A]; cbn [instantiate lpre ld_A] in *; [| |destruct Ht];
-        apply (std_pre_sdec2 Sft Seqb Ord Habs2); assumption.
+        apply (std_pre_sdec2 Sft Seqb Ord Habs2 Hadj); assumption.
     - left. destruct l as [A P R|A|A]; [reflexivity|reflexivity|destruct Ht]. }
   rewrite (apply_it Seqb (Datatypes.S k) 1 0 lvls Hw scr g x Hscr) by congruence.
   change (itpow 1 (Cyc (Datatypes.S k) 1 lvls) g (vzero (top_n lvls))) with (Bop (Datatypes.S k) lvls g).
